@@ -135,6 +135,9 @@ def classify(ob, parsed):
                 if st == 'SATISFIED':
                     failures.append({'desc': desc, 'loc': c['loc'], 'kind': 'reached'})
                 witnesses.append({'desc': desc, 'status': st, 'ok': st != 'SATISFIED'})
+            elif desc in ob.get('dead_witnesses', []):
+                # witness that is dead code for this configuration by construction (listed in the registry)
+                witnesses.append({'desc': desc, 'status': st + ' (not applicable to this configuration)', 'ok': True})
             else:
                 witnesses.append({'desc': desc, 'status': st, 'ok': st == 'SATISFIED'})
             continue
